@@ -283,6 +283,9 @@ class _NormalizePadFormatBase(orp.RewriteRuleClassBase):
             if not all(isinstance(x, int) for x in output_shape[2:]):
                 return check_result.fail(error_msg.format("output"))
             attributes = read_conv_attributes(conv_node)
+            if not all(isinstance(x, int) for x in attributes["kernel_shape"]):
+                # (kernel_shape read from the shape of a weight input with symbolic dimensions)
+                return check_result.fail(error_msg.format("kernel"))
             if len(attributes["kernel_shape"]) != len(attributes["strides"]):
                 return check_result.fail(
                     "strides must have the same length than kernel_shape on "
